@@ -18,7 +18,7 @@ RULE = ("rejection kind (13 + 8 read-side variants + up to 15 further variants o
         "Reviewer extensions: existing dataset also {hive and hive-partitioned directory WITHOUT _metadata / "
         "_common_metadata (files found by listing the directory), single file and hive dataset whose columns are "
         "stored REQUIRED with a categorical and a JSON column}; mode also {handle: ParquetFile.write_row_groups on a "
-        "handle the caller keeps, given a frame or an iterable of frames; overwrite: append='overwrite'}; rejection "
+        "handle the caller keeps, given a frame or an iterable of frames (also: only the second / third frame of the iterable has the other columns, through the handle and through write(append=True)); overwrite: append='overwrite'}; rejection "
         "kinds also {missing value under the STORED non-nullable schema: None in a text column, None / pd.NA in an "
         "integer column, NaN code in a categorical; set under the stored JSON encoding; partition_on omitted / "
         "superset / given as text; drill requested on a hive dataset; append='overwrite' on a single file or an "
@@ -64,6 +64,7 @@ HANDLE_REJECTIONS = ["complex_dtype", "mixed_object", "int_as_utf8", "bad_codec"
 # rejections under the stored schema of the REQ datasets
 REQ_REJECTIONS = ["req_none_text", "req_none_int", "req_NA_Int64", "req_nan_cat", "req_json_set"]
 OVERWRITE_LATE = ["complex_dtype", "mixed_object", "int_as_utf8", "bad_codec", "diff_columns"]
+COLUMN_MISMATCH = ("diff_columns", "extra_column", "missing_column")
 BIG = 600
 CRASHLIKE = ("AttributeError", "NameError", "UnboundLocalError", "AssertionError", "ImportError",
              "ModuleNotFoundError", "RecursionError")
@@ -143,6 +144,11 @@ def points(tier):
             pts.append({"ds": ds, "rej": rej, "mode": "read", "colpos": "first", "rowpos": "rg0"})
     for ds in DATASETS + NOMETA:
         _handle_points(ds, tier, pts)
+        # fastparquet.write(..., append=True) given an iterable of frames of which only a LATER one has other columns
+        for rej in COLUMN_MISMATCH:
+            for rowpos in ("later", "third"):
+                pts.append({"ds": ds, "rej": rej, "mode": "append", "colpos": "first", "rowpos": rowpos, "iter": True})
+            pts.append({"ds": ds, "rej": rej, "mode": "handle", "colpos": "first", "rowpos": "third", "iter": True})
         # append='overwrite'
         if ds.startswith("hive_part"):
             for rej in OVERWRITE_LATE:
@@ -283,7 +289,7 @@ def offending(rej, colpos, rowpos, n=6):
     kw = {"row_group_offsets": [0, n // 2]}
     target = {"first": "a", "middle": "b", "last": "c", "partition": "p"}[colpos]
     # p = i % 2: rows 0 and n//2+1 are in the first partition group of their row group, 1 and n//2+2 in the second
-    row = {"rg0": 0, "later": n // 2 + 1, "rg0_p1": 1, "later_p1": n // 2 + 2}[rowpos]
+    row = {"rg0": 0, "later": n // 2 + 1, "rg0_p1": 1, "later_p1": n // 2 + 2, "third": n // 2 + 1}[rowpos]
     if rej == "complex_dtype":
         df[target] = pd.Series([complex(i, 1) for i in range(n)])
     elif rej == "int_colname":
@@ -496,13 +502,22 @@ def run(p):
     offsets = wkw.get("row_group_offsets")
     good = base_frame(6, 200, req=req)
     pf = None
+    frames = None
+    if p.get("iter"):
+        frames = [df.iloc[offsets[0]:offsets[1]], df.iloc[offsets[1]:]]
+        if rej in COLUMN_MISMATCH and rowpos in ("later", "third"):
+            # only a later frame of the iterable has the other columns: the frames before it are acceptable
+            ok_df = base_frame(n, 100)
+            frames[0] = ok_df.iloc[offsets[0]:offsets[1]]
+            if rowpos == "third":
+                frames.insert(1, ok_df.iloc[offsets[1]:])
     try:
         if mode == "handle":
             pf = fastparquet.ParquetFile(path)
-            data = df
-            if p.get("iter"):
-                data = iter([df.iloc[offsets[0]:offsets[1]], df.iloc[offsets[1]:]])
+            data = iter(frames) if frames is not None else df
             pf.write_row_groups(data, row_group_offsets=offsets, compression=wkw.get("compression"))
+        elif mode == "append" and frames is not None:
+            fastparquet.write(path, iter(frames), write_index=False, **wkw)
         elif mode == "overwrite":
             fastparquet.write(path, df, write_index=False, append="overwrite", file_scheme=okw["file_scheme"],
                               partition_on=okw.get("partition_on", []), row_group_offsets=offsets,
